@@ -1,5 +1,6 @@
 import LenaModel.DriverUtil
 import LenaModel.Model.C01
+import LenaModel.Model.C01Kinds
 /-! Model driver for C01.  Values: int | "str" | [list] | {"t":[tuple]} | {"d":{dict}} | {"q":[n,d]}.
 Element specs: see `specOf`.  Requests:
   {"op":"run","prog":[spec..],"flow":[v..],"term":null|exc}   Sequence(*prog).run(flow)   (nested {"k":"seq"} = bracketing);
@@ -17,6 +18,11 @@ Element specs: see `specOf`.  Requests:
   {"op":"source","args":[spec..]}                Source(*args)()
   {"op":"source_then","args":[..],"prog":[..]}   Sequence(*prog).run(Source(*args)())
   {"op":"flags","spec":spec}                     what the constructors can observe of the object
+  {"op":"runk","prog":[..],"flow":..,"term":..,"kind":"iterable"|"iterator"}   Sequence(*prog).run(<flow object of that kind>)
+                                                 with the two `flow_to_iter` of the code (`runObj`); reply has "kind"
+  {"op":"rawrun","spec":spec,"flow":..,"term":..,"kind":..}   the stored entry of one element run directly on the flow
+                                                 object, no conversion (`Stored.runObj`: `Count.run` takes `next(flow)`)
+  {"op":"sourcek","args":[spec..],"kind":..}     Source(*args)() when the first element's flow is an object of that kind
 Replies: {"r":[v..],"t":null|exc,"eager":bool} (values yielded, how the iteration ended, whether the exception was
 raised by the call itself) | {"e":<exception>,"phase":"init"} -/
 open Lean Lena.Drv Lena.Flow Lena.C01
@@ -229,6 +235,8 @@ def handle (j : Json) : Json :=
         | .ok s, .ok sa, .ok sb =>
           Json.mkObj [("whole", outJson (s.rerun past flow)),
                       ("split", outJson (sa.rerun past flow >>= sb.rerun (pastOutsAll sa.stored past))),
+                      -- new sequence objects around the used elements: every entry with its own history
+                      ("hist", outJson (runWithHist (histories s.stored past) flow)),
                       ("pasts", Json.arr ((List.range past.length).map
                         (fun i => outJson (s.rerun (past.take i) ((past.drop i).headD .nil)))).toArray)]
         | .error e, _, _ => initErr e
@@ -356,4 +364,60 @@ def handle (j : Json) : Json :=
     | none => err "bad flags args"
   | _ => err "unknown op"
 
-def main : IO Unit := run handle
+def kindOf (j : Json) : Option FlowKind :=
+  match str? j with
+  | some "iterator" => some .iterator
+  | some "iterable" => some .iterable
+  | _ => none
+
+def objJson : Except Exc (FlowObj Value) → Json
+  | .ok f => Json.mkObj [("r", ofList valueJson f.strm.vals), ("t", termJson f.strm.term), ("eager", Json.bool false),
+                         ("kind", Json.str (match f.kind with | .iterator => "iterator" | .iterable => "iterable"))]
+  | .error e => Json.mkObj [("r", Json.arr #[]), ("t", Json.str e.name), ("eager", Json.bool true)]
+
+/-- the stored entries of `Sequence(*prog)` with the shapes of the data arguments they come from -/
+def shaped (prog : List Spec) (es : List (Element Value)) (s : Seq Value) : List (RunShape × Stored Value) :=
+  (((prog.zip es).filter (fun p => !p.2.hasNoData)).map (fun p => ({ needsNext := p.1.needsNext } : RunShape))).zip s.stored
+
+def handleK (j : Json) : Json :=
+  match str? (getD j "op") with
+  | some "runk" =>
+    match specsOf (getD j "prog"), strmOf j, kindOf (getD j "kind") with
+    | some prog, some flow, some k =>
+      match Spec.toElements prog with
+      | .error e => initErr e
+      | .ok es =>
+        match mkSequence es with
+        | .error e => initErr e
+        | .ok s => objJson (runObj (shaped prog es s) ⟨k, flow⟩)
+    | _, _, _ => err "bad runk args"
+  | some "rawrun" =>
+    match specOf (getD j "spec"), strmOf j, kindOf (getD j "kind") with
+    | some sp, some flow, some k =>
+      match Spec.toElement sp with
+      | .error e => initErr e
+      | .ok el =>
+        -- the element itself if it has a callable `run`, else `adapters.Run(el)`
+        match convert el with
+        | .error e => initErr e
+        | .ok st => objJson (st.runObj { needsNext := sp.needsNext } ⟨k, flow⟩)
+    | _, _, _ => err "bad rawrun args"
+  | some "sourcek" =>
+    match specsOf (getD j "args"), kindOf (getD j "kind") with
+    | some args, some k =>
+      match Spec.toElements args with
+      | .error e => initErr e
+      | .ok es =>
+        match mkSource es with
+        | .error e => initErr e
+        | .ok src =>
+          -- the tail is `Sequence(*data arguments after the first)`
+          let data := (args.zip es).filter (fun p => !p.2.hasNoData)
+          let ps := match src.tail with
+            | some t => ((data.drop 1).map (fun p => ({ needsNext := p.1.needsNext } : RunShape))).zip t.stored
+            | none => []
+          objJson (src.callObj ps k)
+    | _, _ => err "bad sourcek args"
+  | _ => handle j
+
+def main : IO Unit := run handleK
